@@ -1328,6 +1328,23 @@ impl HnswBackend {
                         }
                     }
 
+                    // MANIFEST carries no checksum. If its snapshot pointer was damaged into the
+                    // name of an older snapshot that still exists, that file loads fine but no
+                    // longer matches the sequence number published next to the pointer, and the
+                    // WAL between the two has been compacted away.
+                    if !recovered_from_fallback && matches!(recovery_mode, RecoveryMode::Strict) {
+                        if let Some(published_seq) = manifest.latest_snapshot_wal_seq {
+                            if published_seq != snapshot_last_wal_seq {
+                                anyhow::bail!(
+                                    "strict recovery mode: MANIFEST publishes a snapshot covering wal seq {} but the \
+                                     snapshot file it names covers wal seq {}; refusing to start from a mismatched snapshot",
+                                    published_seq,
+                                    snapshot_last_wal_seq
+                                );
+                            }
+                        }
+                    }
+
                     if recovered_from_fallback {
                         fallback_snapshot_seq = Some(snapshot_last_wal_seq);
                         warn!(
